@@ -69,6 +69,11 @@ class BlockBlueprint(yamlize.KeyedList):
 
     item_type = componentBlueprint.ComponentBlueprint
     key_attr = componentBlueprint.ComponentBlueprint.name
+
+    def __setitem__(self, key, value):
+        if key in self:
+            raise ValueError(f"Component `{key}` is defined more than once in a block.")
+        yamlize.KeyedList.__setitem__(self, key, value)
     name = yamlize.Attribute(key="name", type=str)
     gridName = yamlize.Attribute(key="grid name", type=str, default=None)
     flags = yamlize.Attribute(type=str, default=None)
